@@ -72,11 +72,12 @@ IsReal(v) == ValTy(v) \in {"int", "bool", "float"}
 IsTupleArgs(c) == c.args.shape = "tuple"
 
 \* `dict` in the C code: PyMapping_Check(args) && !PyTuple_Check(args) && !PyUnicode_Check(args)
-\* (str templates) / && !PyBytes_Check && !PyByteArray_Check (bytes templates)
+\* for str templates (so a bytes object counts as a mapping); the bytes formatter excludes tuple,
+\* bytes, bytearray and str.
 DictP(c) ==
     \/ c.args.shape = "dict"
-    \/ /\ c.args.shape = "scalar"
-       /\ ValTy(c.args.items[1]) \in (IF c.kind = "str" THEN {"bytes"} ELSE {"str"})
+    \/ /\ c.args.shape = "scalar" /\ c.kind = "str"
+       /\ ValTy(c.args.items[1]) = "bytes"
 
 RFail(exc, cause, st) == [exc |-> exc, cause |-> cause, binds |-> st.binds]
 
@@ -210,7 +211,10 @@ RefSpecs(t, p) ==
                      q4 == IF ~dot THEN q3 ELSE IF pstar THEN q3 + 2 ELSE RunEnd(t, q3 + 1, DigitCh)
                      eprec == dot /\ ~pstar /\ q4 = q3 + 1
                      q5 == IF At(t, q4) \in LenCh THEN q4 + 1 ELSE q4
-                 IN IF At(t, q5) = "EOF" THEN << >>
+                 IN IF At(t, q5) = "EOF" THEN
+                        \* incomplete format: a mapping key that was already looked up is still recorded
+                        (IF haskey THEN << [haskey |-> TRUE, key |-> SubSeq(t, p + 2, r - 1), star |-> wstar \/ pstar,
+                                            emptyprec |-> FALSE, ch |-> "EOF", adjacent |-> FALSE] >> ELSE << >>)
                     ELSE << [haskey |-> haskey, key |-> IF haskey THEN SubSeq(t, p + 2, r - 1) ELSE << >>,
                              star |-> wstar \/ pstar, emptyprec |-> eprec, ch |-> t[q5], adjacent |-> FALSE] >>
                          \o RefSpecs(t, q5 + 1)
@@ -304,7 +308,7 @@ PzNumeric(v) == ValTy(v) \in {"int", "bool", "float"}        \* Numeric = float 
 PzInt(v) == ValTy(v) \in {"int", "bool"}
 PzInByte(v) == IntClass(v) = "byte"                          \* arg.val in range(256)
 
-\* ConversionSpecifier.accept_no_mvv :154-193 (spec = [star |-> TRUE] is StarConversionSpecifier :196)
+\* ConversionSpecifier.accept_no_mvv :154-193 (s = [ch |-> "*"] is StarConversionSpecifier :196)
 ImplAccept(kind, s, v) ==
     IF s.ch = "*" THEN (IF PzInt(v) THEN << >> ELSE <<"star">>)                                   \* :200
     ELSE IF s.ch \in PzNumTy THEN (IF PzNumeric(v) THEN << >> ELSE <<"num">>)                     \* :155
@@ -507,4 +511,38 @@ NoCrash == stage = "done" => (~ImplCrashes(case) \/ Dev_MixedKeyCrash(case))
 SoundnessStrict == stage = "done" => ReportsWhenRaises(case, MFirst(case))
 PrecisionStrict == stage = "done" => SilentWhenOk(case, MFirst(case))
 NoCrashStrict == stage = "done" => ~ImplCrashes(case)
+
+(***************************************************************************)
+(* Menus used by the configurations (cfg files substitute them for the     *)
+(* constants: PTokens <- TokCore, ...)                                     *)
+(***************************************************************************)
+TokCore == { <<"%">>, <<"(", "k", ")">>, <<"-">>, <<"1">>, <<"*">>, <<".">>, <<"l">>,
+             <<"s">>, <<"d">>, <<"x">>, <<"c">>, <<"f">>, <<"b">>, <<"r">>, <<"z">> }
+\* every conversion type, flag and length modifier, parentheses as separate characters
+TokFull == TokCore \cup { <<"(">>, <<")">>, <<"k">>, <<"0">>, <<"#">>, <<" ">>, <<"+">>, <<"h">>, <<"L">>,
+                          <<"i">>, <<"o">>, <<"u">>, <<"X">>, <<"e">>, <<"E">>, <<"F">>, <<"g">>, <<"G">>, <<"a">> }
+\* composite tokens: whole specifiers per step, for long templates
+TokSpec == { <<"%", "s">>, <<"%", "d">>, <<"%", "x">>, <<"%", "c">>, <<"%", "f">>, <<"%", "b">>, <<"%", "r">>,
+             <<"%", "%">>, <<"%", "(", "k", ")">>, <<"%", "(", "j", ")">>, <<"%", "*">>, <<"%", ".", "*">>,
+             <<"%", ".">>, <<"%", "-", "1">>, <<"%", "l">>, <<"%">>, <<"s">>, <<"d">>, <<"c">>, <<"z">>, <<"(">>, <<")">> }
+
+KStr(chars) == [ty |-> "str", chars |-> chars]
+KeysCore == { KStr(<<"k">>), KStr(<<"j">>), [ty |-> "bytes", chars |-> <<"k">>], [ty |-> "int", chars |-> <<"1">>] }
+KeysFull == KeysCore \cup { KStr(<< >>), KStr(<<"(", "k">>), KStr(<<"(", "k", ")">>) }
+
+ValsAll == {"i1", "i255", "i300", "in1", "ibig", "true", "f15", "c1j", "none", "sa", "sab", "se", "ba", "bab", "be"}
+ValsCore == {"i1", "i300", "f15", "sa", "ba", "none"}
+ValsSmall == {"i1", "f15", "sa", "ba"}
+\* quick tier: composite tokens so that three tokens reach keyed + unkeyed specifiers
+TokQuick == { <<"%">>, <<"%", "(", "k", ")">>, <<"%", "%">>, <<"%", "s">>, <<"s">>, <<"d">>, <<"x">>, <<"c">>, <<"b">>,
+              <<".">>, <<"*">>, <<"1">>, <<"l">>, <<"z">> }
+KeysQuick == { KStr(<<"k">>), [ty |-> "bytes", chars |-> <<"k">>], [ty |-> "int", chars |-> <<"1">>] }
+ValsQScalar == {"i1", "i300", "f15", "sa", "ba"}
+ValsQTuple == {"i1", "f15"}
+ValsQDict == {"i1", "ba"}
+\* mapping-key grammar: parentheses as separate characters
+TokKeys == { <<"%">>, <<"%", "(">>, <<"(">>, <<")">>, <<"k">>, <<"s">> }
+ValsOne == {"i1"}
+ValsKeyD == {"i1", "sa"}
+TokSim == TokFull \cup TokSpec
 =============================================================================
